@@ -91,6 +91,10 @@ def streams(tier, rng):
         Stream("os-conversion-dispatcher", "osd", osd, nontrivial=nt_osd),
         Stream("os-conversion-raw-sample", "oss", osd[: len(osd) // 2], nontrivial=nt_osd),
         Stream("os-conversion-dispatcher-release", "osd", osd[: len(osd) // 2], nontrivial=nt_osd, release=True),
+        # the same Duration conversion as the sampling loop reads its budgets: BenchOptions::min_time()/max_time(),
+        # own and inherited; sub-microsecond parts well represented
+        Stream("duration-conversion-time-limits", "durl", dur + [f"{rng.choice([0, 0, 1, 59])} {rng.choice([1, 250, 500, 999, rng.randrange(1000), rng.randrange(10**6)])}" for _ in range(200)],
+               nontrivial=lambda c, m: c != "0 0"),
         Stream("tsc-conversion", "tsc", tsc, nontrivial=nt_tsc),
         Stream("duration-conversion", "dur", dur, nontrivial=lambda c, m: c != "0 0"),
         Stream("precision-uniform-clock", "prec", prec),
